@@ -397,11 +397,13 @@ func runBatchCheck(bc *BatchCheck, tier string) *evid.Report {
 		fmt.Fprintf(&mb, "\t_ %q\n", p)
 	}
 	mb.WriteString(")\n\nfunc main() { vlib.Main() }\n")
-	os.WriteFile(filepath.Join(tmp, "main.go"), []byte(mb.String()), 0o644)
+	// the module root itself may be a package of the programs (verif.test/proj): main lives below it
+	os.MkdirAll(filepath.Join(tmp, "zzmain"), 0o755)
+	os.WriteFile(filepath.Join(tmp, "zzmain", "main.go"), []byte(mb.String()), 0o644)
 
 	// 3. build
 	bin := filepath.Join(tmp, "batch.bin")
-	cmd := exec.Command("go", "build", "-o", bin, ".")
+	cmd := exec.Command("go", "build", "-o", bin, "./zzmain")
 	cmd.Dir = tmp
 	cmd.Env = append(os.Environ(), "GOFLAGS=-mod=mod", "GOPROXY=off", "GOSUMDB=off", "GOTOOLCHAIN=local")
 	if out, err := cmd.CombinedOutput(); err != nil {
